@@ -22,11 +22,11 @@ def has_choice(t):
 class Universe:
     """Builds cases from terms; remembers the term of every case."""
 
-    def __init__(self, chk):
+    def __init__(self, chk, cid=0):
         self.chk = chk
         self.cases = []
         self.meta = {}
-        self.cid = 0
+        self.cid = cid
         self.construct_failures = []
         self.layout_failures = []
         self.skipped_negative = 0
@@ -61,11 +61,26 @@ def describe(meta):
         'smart' if meta['smart'] else 'fast', meta['stream'])
 
 
-def build_universe(chk, classic, quick_sizes, thorough_sizes, n_random, n_big, flags):
+def universe_parts(chk, classic, quick_sizes, thorough_sizes, n_random, n_big, flags, max_cases=None):
+    """The universe of (document, width, ribbon, strategy) cases, generated in PARTS of bounded size: the whole
+    thorough universe (millions of cases with their node tables, streams and verdict lines) does not fit in memory.
+    Case ids run on across the parts."""
     tier_q = chk.tier == 'quick'
+    if max_cases is None:
+        max_cases = int(os.environ.get('VERIF_LAYOUT_PART', 10 ** 9 if tier_q else 150000))
     texts = G.TEXTS_FULL
     memo = {}
-    u = Universe(chk)
+    box = {'u': Universe(chk)}
+    tot = {'cases': 0}
+
+    def full():
+        return len(box['u'].cases) >= max_cases
+
+    def flush():
+        u = box['u']
+        tot['cases'] += len(u.cases)
+        box['u'] = Universe(chk, cid=u.cid)
+        return u
     configs = G.CONFIGS_QUICK if tier_q else G.CONFIGS_THOROUGH
     exhaustive_to = quick_sizes if tier_q else thorough_sizes
     nterms = 0
@@ -73,29 +88,42 @@ def build_universe(chk, classic, quick_sizes, thorough_sizes, n_random, n_big, f
         # the full text alphabet for the smallest sizes, two texts beyond
         tx = texts if n <= 3 else G.TEXTS_SMALL
         for t in G.enum_terms(n, classic, tx, memo if tx is G.TEXTS_SMALL else None):
-            u.add_term(t, configs, **flags)
+            box['u'].add_term(t, configs, **flags)
             nterms += 1
-    chk.stage('universe.exhaustive', terms=nterms, max_nodes=exhaustive_to, cases=len(u.cases))
-    k0 = len(u.cases)
+            if full():
+                yield flush()
+    chk.stage('universe.exhaustive', terms=nterms, max_nodes=exhaustive_to, cases=tot['cases'] + len(box['u'].cases))
+    k0 = tot['cases'] + len(box['u'].cases)
     st = G.structured_terms(classic)
-    scfg = [c for c in configs if c[0] <= 12][:6] if tier_q else configs
+    scfg = [c for c in configs if c[0] <= 12][:6] if tier_q else [c for c in configs if c[0] in (1, 3, 4, 5, 6, 7, 12, 40)]
     for t in st:
-        u.add_term(t, scfg, **flags)
-    chk.stage('universe.structured', terms=len(st), cases=len(u.cases) - k0)
+        box['u'].add_term(t, scfg, **flags)
+        if full():
+            yield flush()
+    chk.stage('universe.structured', terms=len(st), cases=tot['cases'] + len(box['u'].cases) - k0)
     rng = chk.rng
-    k0 = len(u.cases)
+    k0 = tot['cases'] + len(box['u'].cases)
     for i in range(n_random):
         t = G.random_term(rng, rng.randint(exhaustive_to + 1, 14), classic)
         cfgs = rng.sample(configs, min(3, len(configs)))
-        u.add_term(t, cfgs, **flags)
-    chk.stage('universe.random', terms=n_random, cases=len(u.cases) - k0)
-    k0 = len(u.cases)
+        box['u'].add_term(t, cfgs, **flags)
+        if full():
+            yield flush()
+    chk.stage('universe.random', terms=n_random, cases=tot['cases'] + len(box['u'].cases) - k0)
+    k0 = tot['cases'] + len(box['u'].cases)
     for i in range(n_big):
         t = G.random_term(rng, rng.randint(20, 120), classic, texts=['a', 'bb', 'ccc', 'c ', ''])
         cfgs = [(rng.choice([8, 16, 24, 40]), *rng.choice([(1, 1), (3, 4), (1, 2)]))]
-        u.add_term(t, cfgs, model=False, **flags)
-    chk.stage('universe.big', terms=n_big, cases=len(u.cases) - k0)
-    return u
+        box['u'].add_term(t, cfgs, model=False, **flags)
+    chk.stage('universe.big', terms=n_big, cases=tot['cases'] + len(box['u'].cases) - k0)
+    yield flush()
+
+
+def build_universe(chk, classic, quick_sizes, thorough_sizes, n_random, n_big, flags):
+    """The whole universe as one object (callers with small universes)."""
+    parts = list(universe_parts(chk, classic, quick_sizes, thorough_sizes, n_random, n_big, flags, max_cases=10 ** 9))
+    assert len(parts) == 1
+    return parts[0]
 
 
 def canaries(u, chk, n=40):
@@ -170,19 +198,19 @@ def validate(chk, u, extra_cases, workname):
     return v, st
 
 
-def judge_core(chk, u, prop, flags_on):
+def judge_core(chk, u, prop, flags_on, part=0):
     """Common acceptance procedure.
 
     flags_on: the clause flags of the property under test (e.g. {'c05': True}).
     Returns dict with counts.
     """
-    can = canaries(u, chk) + fixed_canaries(u)
-    v, st = validate(chk, u, can, 'main')
+    can = canaries(u, chk, n=40 if part == 0 else 6) + (fixed_canaries(u) if part == 0 else [])
+    v, st = validate(chk, u, can, 'main%d' % part)
     acc = v['ACCEPT']
-    chk.stage('tlc.validate', traces=len(u.cases), canaries=len(can), states=st['distinct'],
+    chk.stage('tlc.validate', part=part, traces=len(u.cases), canaries=len(can), states=st['distinct'],
               transitions=st['generated'], wall=round(st['wall'], 1), jvms=st['runs'])
     # canaries
-    chk.cov['canaries_total'] = len(can)
+    chk.cov['canaries_total'] = chk.cov.get('canaries_total', 0) + len(can)
     for c in can:
         if c['id'] in acc:
             chk.machinery_error('canary accepted by LayoutSpec: %s' % c['canary'])
@@ -246,47 +274,56 @@ def run_mc(chk, u, limit):
 
 def check_c04(chk, args):
     q = chk.tier == 'quick'
-    u = build_universe(chk, classic=False, quick_sizes=4, thorough_sizes=5,
-                       n_random=400 if q else 6000, n_big=30 if q else 400,
-                       flags={'strict': True})
-    for t, e in u.construct_failures[:5]:
-        chk.violation('C04.construct', 'building %r through the public combinators raised %s' % (t, e),
-                      {'term': repr(t), 'error': e})
-    for f in u.layout_failures[:5]:
-        chk.violation('C04.construct', 'layout of %r at width=%d ribbon=%d/%d smart=%s raised %s' % f,
-                      {'term': repr(f[0]), 'width': f[1], 'ribbon_frac': [f[2], f[3]], 'smart': f[4], 'error': f[5]})
-    chk.cov['construct_failures'] = len(u.construct_failures)
-    chk.cov['layout_failures'] = len(u.layout_failures)
-    acc, rejected = judge_core(chk, u, 'C04', {})
-    n_known = 0
-    if rejected:
-        v2 = rerun(chk, rejected, 'relaxed', strict=False, diag=True)
-        kf = chk.match_finding('C04.forced', HLF)
-        for c in rejected:
-            m = u.meta[c['id']]
-            useds = [set(a[3][1]) for a in v2['ACCEPT'].get(c['id'], []) if a[2] == 'obs']
-            if useds and any(us == {HLF} for us in useds) and kf:
-                chk.known(kf)
-                n_known += 1
-                continue
-            if useds:
-                chk.violation('C04.forced', 'forced-break rule violated (relaxations needed: %s): %s' % (
-                    sorted(min(useds, key=len)), describe(m)), m)
-            else:
-                chk.violation('C04.core', 'stream is not a layout of the document (order/indent/choice/annot); '
-                              'longest accepted prefix = %d items: %s' % (longest_prefix(v2, c['id']), describe(m)), m)
-    chk.stage('verdict', accepted=len(u.cases) - len(rejected), known_finding=n_known,
-              violations=len(chk.violations))
+    import render_check
+    n_known = n_cases = n_rej = 0
+    ncf = nlf = 0
+    kf = chk.match_finding('C04.forced', HLF)
+    for part, u in enumerate(universe_parts(chk, classic=False, quick_sizes=4, thorough_sizes=5,
+                                            n_random=400 if q else 6000, n_big=30 if q else 400,
+                                            flags={'strict': True})):
+        if not u.cases and not u.construct_failures and not u.layout_failures:
+            continue
+        for t, e in u.construct_failures[:5]:
+            chk.violation('C04.construct', 'building %r through the public combinators raised %s' % (t, e),
+                          {'term': repr(t), 'error': e})
+        for f in u.layout_failures[:5]:
+            chk.violation('C04.construct', 'layout of %r at width=%d ribbon=%d/%d smart=%s raised %s' % f,
+                          {'term': repr(f[0]), 'width': f[1], 'ribbon_frac': [f[2], f[3]], 'smart': f[4], 'error': f[5]})
+        ncf += len(u.construct_failures)
+        nlf += len(u.layout_failures)
+        if not u.cases:
+            continue
+        acc, rejected = judge_core(chk, u, 'C04', {}, part=part)
+        n_cases += len(u.cases)
+        n_rej += len(rejected)
+        if rejected:
+            v2 = rerun(chk, rejected, 'relaxed%d' % part, strict=False, diag=True)
+            for c in rejected:
+                m = u.meta[c['id']]
+                useds = [set(a[3][1]) for a in v2['ACCEPT'].get(c['id'], []) if a[2] == 'obs']
+                if useds and any(us == {HLF} for us in useds) and kf:
+                    chk.known(kf)
+                    n_known += 1
+                    continue
+                if useds:
+                    chk.violation('C04.forced', 'forced-break rule violated (relaxations needed: %s): %s' % (
+                        sorted(min(useds, key=len)), describe(m)), m)
+                else:
+                    chk.violation('C04.core', 'stream is not a layout of the document (order/indent/choice/annot); '
+                                  'longest accepted prefix = %d items: %s' % (longest_prefix(v2, c['id']), describe(m)), m)
+        # render clause (a share of every part) and step-wise model checking (the first part: the smallest documents)
+        render_check.run(chk, u, limit=(3000 if q else 4000))
+        if part == 0:
+            run_mc(chk, u, 4000 if q else 60000)
+        account(chk, u, 'documents enumerated exhaustively up to a node bound over the combinator algebra '
+                '(n-ary concat, bare str children) plus seeded random larger ones, x widths x dyadic ribbon '
+                'fractions x {smart, fast}; non-trivial = the document contains a choice (line/softline/'
+                'flat_choice/fill), distinct by (document, width, ribbon, strategy)')
+    chk.cov['construct_failures'] = ncf
+    chk.cov['layout_failures'] = nlf
+    chk.stage('verdict', accepted=n_cases - n_rej, known_finding=n_known, violations=len(chk.violations))
     pformat_documents(chk)
     suite_traces(chk)
-    # render clause
-    import render_check
-    render_check.run(chk, u)
-    run_mc(chk, u, 4000 if q else 60000)
-    account(chk, u, 'documents enumerated exhaustively up to a node bound over the combinator algebra '
-            '(n-ary concat, bare str children) plus seeded random larger ones, x widths x dyadic ribbon '
-            'fractions x {smart, fast}; non-trivial = the document contains a choice (line/softline/'
-            'flat_choice/fill), distinct by (document, width, ribbon, strategy)')
 
 
 def pformat_documents(chk):
@@ -407,8 +444,8 @@ def suite_traces(chk):
 
 
 def account(chk, u, rule):
-    chk.cov['evaluations'] = len(u.cases) + len(u.construct_failures) + len(u.layout_failures)
-    chk.cov['skipped_negative_total_indent'] = u.skipped_negative
+    chk.cov['evaluations'] += len(u.cases) + len(u.construct_failures) + len(u.layout_failures)
+    chk.cov['skipped_negative_total_indent'] = chk.cov.get('skipped_negative_total_indent', 0) + u.skipped_negative
     chk.cov['traces_validated_against_impl'] += len(u.cases)
     for c in u.cases:
         m = u.meta[c['id']]
@@ -427,31 +464,34 @@ def account(chk, u, rule):
 
 def check_clause(chk, args, prop, flag, clause):
     q = chk.tier == 'quick'
-    u = build_universe(chk, classic=True, quick_sizes=5, thorough_sizes=6,
-                       n_random=600 if q else 8000, n_big=30 if q else 400,
-                       flags={'strict': False, flag: True})
-    acc, rejected = judge_core(chk, u, prop, {flag: True})
-    unjudged = 0
-    if rejected:
-        v2 = rerun(chk, rejected, 'clause-off', **{flag: False, 'diag': True})
-        for c in rejected:
-            m = u.meta[c['id']]
-            if any(a[2] == 'obs' for a in v2['ACCEPT'].get(c['id'], [])):
-                chk.violation(clause, '%s: %s' % (
-                    'a group laid out flat sits on a line exceeding page or ribbon' if prop == 'C05'
-                    else 'a group was broken although it (and the rest of its line) fits flat', describe(m)), m)
-            else:
-                unjudged += 1   # not a layout of the document at all: C04's business
+    unjudged = n_cases = n_rej = 0
+    for part, u in enumerate(universe_parts(chk, classic=True, quick_sizes=5, thorough_sizes=6,
+                                            n_random=600 if q else 8000, n_big=30 if q else 400,
+                                            flags={'strict': False, flag: True})):
+        if not u.cases:
+            continue
+        acc, rejected = judge_core(chk, u, prop, {flag: True}, part=part)
+        n_cases += len(u.cases)
+        n_rej += len(rejected)
+        if rejected:
+            v2 = rerun(chk, rejected, 'clause-off%d' % part, **{flag: False, 'diag': True})
+            for c in rejected:
+                m = u.meta[c['id']]
+                if any(a[2] == 'obs' for a in v2['ACCEPT'].get(c['id'], [])):
+                    chk.violation(clause, '%s: %s' % (
+                        'a group laid out flat sits on a line exceeding page or ribbon' if prop == 'C05'
+                        else 'a group was broken although it (and the rest of its line) fits flat', describe(m)), m)
+                else:
+                    unjudged += 1   # not a layout of the document at all: C04's business
+        account(chk, u, 'classic-algebra documents (text, concat, nest, group, line, softline, hardline, '
+                'always_break, align) enumerated exhaustively up to a node bound plus seeded random larger ones, '
+                'x widths x dyadic ribbon fractions x {smart, fast}; non-trivial = the document contains a '
+                'line/softline; distinct by (document, width, ribbon, strategy)')
     chk.cov['unjudged_not_a_layout'] = unjudged
-    chk.stage('verdict', accepted=len(u.cases) - len(rejected), unjudged=unjudged,
-              violations=len(chk.violations))
+    chk.stage('verdict', accepted=n_cases - n_rej, unjudged=unjudged, violations=len(chk.violations))
     if prop == 'C06':
         import oneline_check
         oneline_check.run(chk)
-    account(chk, u, 'classic-algebra documents (text, concat, nest, group, line, softline, hardline, '
-            'always_break, align) enumerated exhaustively up to a node bound plus seeded random larger ones, '
-            'x widths x dyadic ribbon fractions x {smart, fast}; non-trivial = the document contains a '
-            'line/softline; distinct by (document, width, ribbon, strategy)')
 
 
 def check_c05(chk, args):
